@@ -8,6 +8,13 @@ import random
 LABEL_POOL = "ABCDEFGHIJKLMNOPQRSTUVWXYZ"
 
 
+def hyphen_labels(n):
+    """String labels that contain the character the repository uses when it prints an edge ('a', 'a-a', 'a-a-a', ...):
+    different label pairs then print identically, e.g. ('a', 'a-a') and ('a-a', 'a').  Labels are names, any
+    string is a valid one (D20)."""
+    return ["-".join("a" * k) for k in range(1, n + 1)]
+
+
 def derive(*parts):
     h = hashlib.sha256("|".join(str(p) for p in parts).encode()).digest()
     return int.from_bytes(h[:8], "big")
@@ -115,7 +122,13 @@ def gen_world(rng, shape=None, n=None, labels=None, directed_p=0.25, selfnbr_p=0
     elif labels == "bigint":
         names = rng.sample(range(1, 10 ** 9), n)
     elif labels == "str":
-        names = list(LABEL_POOL[:n]) if rng.random() < 0.5 else ["n%d" % v for v in rng.sample(range(100), n)]
+        r_ = rng.random()
+        if r_ < 0.42:
+            names = list(LABEL_POOL[:n])
+        elif r_ < 0.84:
+            names = ["n%d" % v for v in rng.sample(range(100), n)]
+        else:
+            names = hyphen_labels(n)
         rng.shuffle(names)
     else:
         raise ValueError(labels)
